@@ -1,53 +1,45 @@
-/- C14 — helper lemmas: server half of Rpc. -/
-import TboxModel.C14.Spec
+/- C14 — helper lemmas: server half of Rpc; two peers. -/
+import TboxModel.C14.ProofsRpc
 namespace Tbox.C14
 
-theorem sentCount_append (i : Int) (a b : List SEv) : sentCount i (a ++ b) = sentCount i a + sentCount i b := by
+/-- responses written with id `i` -/
+def answeredCount (i : Int) : List REv → Nat
+  | [] => 0
+  | .answered j _ :: es => (if j = i then 1 else 0) + answeredCount i es
+  | _ :: es => answeredCount i es
+
+theorem answeredCount_append (i : Int) (a b : List REv) :
+    answeredCount i (a ++ b) = answeredCount i a + answeredCount i b := by
   induction a with
-  | nil => simp [sentCount]
-  | cons e es ih => cases e <;> simp [sentCount, ih] <;> omega
+  | nil => simp [answeredCount]
+  | cons e es ih => cases e <;> simp [answeredCount, ih] <;> omega
 
-theorem Srv_step_sends (s : Srv) (op : SOp) (i : Int) :
-    sentCount i (s.step op).2 = expectedSends i [op] := by
+/-- the peer a world op acts on -/
+def World.peer (w : World) (onB : Bool) : Rpc := if onB then w.b else w.a
+
+def peerEvs (r : List REv × List REv) (onB : Bool) : List REv := if onB then r.2 else r.1
+
+theorem run_one (s : Rpc) (op : Op) : run s [op] = step s op := by simp [run]
+
+theorem world_step_peer (w : World) (op : WOp) (onB : Bool) :
+    (w.step op).1.peer onB = (run (w.peer onB) (peerOp w onB op)).1 ∧
+    peerEvs (w.step op).2 onB = (run (w.peer onB) (peerOp w onB op)).2 := by
   cases op with
-  | recv id svc =>
-    cases svc with
-    | sync code =>
-      simp only [Srv.step, Srv.recvRequest, Srv.respond, expectedSends]
-      by_cases h0 : id = 0
-      · simp [h0, sentCount]
-      · by_cases hi : id = i
-        · subst hi; simp [h0, sentCount]
-        · simp [h0, hi, sentCount]
-    | async =>
-      simp only [Srv.step, Srv.recvRequest, expectedSends]
-      by_cases h0 : id = 0 <;> simp [h0, sentCount]
-    | unknown =>
-      simp only [Srv.step, Srv.recvRequest, expectedSends]
-      by_cases hi : id = i <;> simp [hi, sentCount]
-  | respond id code =>
-    simp only [Srv.step, Srv.respond, expectedSends]
-    by_cases h0 : id = 0
-    · simp [h0, sentCount]
-    · by_cases hi : id = i
-      · subst hi; simp [h0, sentCount]
-      · simp [h0, hi, sentCount]
-  | tick => simp [Srv.step, expectedSends, sentCount]
+  | api b o =>
+    cases b <;> cases onB <;> simp [World.step, World.apply, peerOp, World.peer, peerEvs, run]
+  | deliver toB i =>
+    cases toB <;> cases onB <;> simp only [World.step, peerOp, World.peer, peerEvs]
+    · cases h : w.ba[i]? <;> simp [World.apply, run]
+    · cases h : w.ba[i]? <;> simp [World.apply, run]
+    · cases h : w.ab[i]? <;> simp [World.apply, run]
+    · cases h : w.ab[i]? <;> simp [World.apply, run]
+  | drop toB i => cases toB <;> cases onB <;> simp [World.step, peerOp, World.peer, peerEvs, run]
+  | dup toB i => cases toB <;> cases onB <;> simp [World.step, peerOp, World.peer, peerEvs, run]
 
-theorem expectedSends_cons (i : Int) (op : SOp) (ops : List SOp) :
-    expectedSends i (op :: ops) = expectedSends i [op] + expectedSends i ops := by
-  cases op with
-  | recv id svc => cases svc <;> simp [expectedSends]
-  | respond id code => simp [expectedSends]
-  | tick => simp [expectedSends]
-
-theorem Srv_run_sends (ops : List SOp) (i : Int) : ∀ s : Srv,
-    sentCount i (s.run ops).2 = expectedSends i ops := by
-  induction ops with
-  | nil => intro s; rfl
-  | cons op ops ih =>
-    intro s
-    simp only [Srv.run, sentCount_append, Srv_step_sends, ih]
-    exact (expectedSends_cons i op ops).symm
+theorem run_append (s : Rpc) (a b : List Op) :
+    run s (a ++ b) = ((run (run s a).1 b).1, (run s a).2 ++ (run (run s a).1 b).2) := by
+  induction a generalizing s with
+  | nil => simp [run]
+  | cons op a ih => simp only [List.cons_append, run, ih, List.append_assoc]
 
 end Tbox.C14
